@@ -90,6 +90,74 @@ class Opaque:
         return ("Opaque", self.what)
 
 
+OBJ_SORT = z3.DeclareSort("Obj")  # python objects we never look into but whose identity matters (args tuples, kwargs dicts, ...)
+
+
+class UPred:
+    """an unknown pure callable (e.g. a user-supplied filter predicate): calling it yields an uninterpreted function of the
+    argument values, so equal arguments give equal results and nothing else is known"""
+
+    def __init__(self, name, result_kind="bool"):
+        self.name = name
+        self.result_kind = result_kind
+        self.name_term = z3.String(name + ".__name__")
+
+    def leaves(self):
+        return []
+
+    def rebuild(self, leaves):
+        return self
+
+    def sig(self):
+        return ("UPred", self.name)
+
+    def call(self, args, kwargs):
+        from .values import leaves_of, to_z3, sort_for_kind
+
+        flat = []
+        for a in list(args) + [kwargs[k] for k in sorted(kwargs)]:
+            for l in leaves_of(a):
+                if l is None:
+                    continue
+                flat.append(z3.StringVal(l) if isinstance(l, str) else to_z3(l))
+        fn = z3.Function(f"{self.name}!{len(flat)}!" + "_".join(str(x.sort()).replace(" ", "") for x in flat)[:200], *([x.sort() for x in flat] + [sort_for_kind(self.result_kind)]))
+        return fn(*flat) if flat else z3.Const(self.name + "!const", sort_for_kind(self.result_kind))
+
+
+class UFunc:
+    """an unknown pure callable returning a value of a declared type: each distinct argument tuple yields one fresh value"""
+
+    def __init__(self, name, result_type):
+        self.name = name
+        self.result_type = result_type
+        self.name_term = z3.String(name + ".__name__")
+        self.cache = []
+
+    def leaves(self):
+        return []
+
+    def rebuild(self, leaves):
+        return self
+
+    def sig(self):
+        return ("UFunc", self.name)
+
+    def call(self, st, args, kwargs):
+        from .values import leaves_of
+
+        flat = []
+        for a in list(args) + [kwargs[k] for k in sorted(kwargs)]:
+            flat.extend(leaves_of(a))
+        for key, val in self.cache:
+            if len(key) == len(flat) and all((x is y) or (is_sym(x) and is_sym(y) and x.eq(y)) or (not is_sym(x) and not is_sym(y) and x == y) for x, y in zip(key, flat)):
+                return val
+        val, wf = self.result_type.fresh(self.name + ".result")
+        for w in wf:
+            st.assume(w)
+        self.cache.append((flat, val))
+        return val
+
+
 class Native:
     def __init__(self, name, fn, mutates_self=False):
         self.name = name
@@ -276,7 +344,11 @@ class Ctx:
         s.set("timeout", timeout_ms)
         for h in st.hyps():
             s.add(h)
-        return s.check() != z3.unsat
+        from .values import guarded_check
+
+        if __import__("os").environ.get("PYVC_DUMP_FEASIBLE"):
+            open(__import__("os").environ["PYVC_DUMP_FEASIBLE"], "w").write(s.to_smt2())
+        return guarded_check(s, timeout_ms) != z3.unsat
 
 
 # =====================================================================================
@@ -764,7 +836,30 @@ class Interp:
         return d
 
     def ev_JoinedStr(self, node, st):
-        return Opaque("fstring")
+        """f-string: the concatenation of its parts as a z3 string when every part is a string (or a non-negative int rendered by str());
+        anything else (format specs, conversions, other types) stays opaque"""
+        parts = []
+        for v in node.values:
+            if isinstance(v, ast.Constant) and isinstance(v.value, str):
+                parts.append(z3.StringVal(v.value))
+                continue
+            if isinstance(v, ast.FormattedValue) and v.conversion == -1 and v.format_spec is None:
+                try:
+                    x = self.ev(v.value, st)
+                except Outside:
+                    return Opaque("fstring")
+                if isinstance(x, str):
+                    parts.append(z3.StringVal(x))
+                    continue
+                if is_sym(x) and x.sort() == z3.StringSort():
+                    parts.append(x)
+                    continue
+            return Opaque("fstring")
+        if not parts:
+            return ""
+        if all(z3.is_string_value(p_) for p_ in parts):
+            return "".join(p_.as_string() for p_ in parts)
+        return z3.Concat(*parts) if len(parts) > 1 else parts[0]
 
     def ev_FormattedValue(self, node, st):
         return Opaque("fstring")
